@@ -320,6 +320,26 @@ def gen_decode_const_roundtrip(t, tier):
               "2 constants; all values of the kind" + ("; strings: one 2-byte UTF-8 character + one ASCII character" if t == "String" else ""), 20, tier, [STUB_INTERN])
 
 
+def gen_encode_string(tier):
+    """encoder half of the String constant codec (the decoder half runs UTF-8 validation and gets no verdict): the blob entry of a
+    string constant is its BYTE length as u32 LE followed by its UTF-8 bytes - what String::from_le / decode_const_entries read"""
+    b = ["let c0: u8 = kani::any(); let c1: u8 = kani::any(); let c2: u8 = kani::any();",
+         "kani::assume(c0 >= 0xC2 && c0 <= 0xDF && c1 >= 0x80 && c1 <= 0xBF && c2 >= 0x20 && c2 < 0x7F);",
+         "let x: String = { let mut v = String::new(); v.push(char::from_u32((((c0 & 0x1F) as u32) << 6) | ((c1 & 0x3F) as u32)).unwrap()); v.push(c2 as char); v };",
+         "let mut ctx = CompileCtx::new();",
+         "let id = x.compile_const(&mut ctx).unwrap();",
+         "assert!(id == 0 && ctx.const_entries.len() == 1, \"VP:constant-ids-wrong\");",
+         "let off = ctx.const_entries[0].offset as usize; let len = ctx.const_entries[0].length as usize;",
+         "assert!(len == 7 && off + len == ctx.const_blob.len(), \"VP:constant-entry-length-differs-from-payload\");",
+         "if len == 7 && off + len == ctx.const_blob.len() { let p = &ctx.const_blob[off..off + len];",
+         "  assert!(p[0] == 3 && p[1] == 0 && p[2] == 0 && p[3] == 0, \"VP:string-length-prefix-is-not-the-byte-length\");",
+         "  assert!(p[4] == c0 && p[5] == c1 && p[6] == c2, \"VP:string-payload-differs\"); }",
+         "kani::cover!(true, \"VP:reached\");", "forget(ctx); forget(x);"]
+    return mk("c07_const_encode_string", b, "accept", "const-encode/String",
+              "a string constant made of one 2-byte UTF-8 character and one ASCII character is written as byte length (u32 LE) + UTF-8 bytes",
+              ["CompileConst::compile_const for String", "CompileCtx::compile_const"], "strings of 2 characters / 3 bytes, all such characters", 12, tier, [STUB_INTERN])
+
+
 def gen_roundtrip(tier):
     b = ["let mut ctx = CompileCtx::new();", "let x: u8 = kani::any(); let y: i64 = kani::any();",
          "let c0 = x.compile_const(&mut ctx).unwrap(); let c1 = y.compile_const(&mut ctx).unwrap();",
@@ -423,6 +443,7 @@ def plan(tier, seed):
         hs.append(gen_decode_const_roundtrip(t, "quick"))
     for t in ["i64", "bool", "u16"]:
         hs.append(gen_decode_const_roundtrip(t, "thorough"))
+    hs.append(gen_encode_string("quick"))
     hs.append(off(gen_decode_const_roundtrip("String", "quick"), "String::from_le -> String::from_utf8 (UTF-8 validation loops over a symbolic-length buffer): no verdict in 2400 s"))
     for t in ["u32", "u64", "u128", "i8", "i16", "i32", "i128", "f32", "R64", "C64"]:
         hs.append(gen_decode_const_roundtrip(t, "thorough"))
